@@ -463,6 +463,46 @@ def rule_collide(ctx) -> RuleResult:
                                "+-inf is indistinguishable from an all-NaN group; conjoin the test with 'number of valid members == 0'")
     if n_inst == 0:
         res.inst("no substitute-comparison detector left in the engine modules (accepted repaired form)")
+    # the same mistake one stage later: detecting "this group occurred in no block" by comparing a finalized or combined value with the
+    # identity the blocks were padded with (agg.fill_value["intermediate"], +-inf).  The identity is a legal result (max of a group of -inf).
+    from .codes import _local_closure
+    for q in sorted(prog.funcs):
+        if not q.startswith("core.") or prog.funcs[q].is_overload or isinstance(prog.funcs[q].node, ast.Lambda):
+            continue
+        f = prog.funcs[q]
+        pm = None
+        for n in walk_own(f.node):
+            if not (isinstance(n, ast.Compare) and len(n.ops) == 1 and isinstance(n.ops[0], (ast.Eq, ast.NotEq))):
+                continue
+            sides = [n.left, n.comparators[0]]
+            ident = None
+            for sd in sides:
+                clo = _local_closure(f, sd, limit=3)
+                txt = " ".join(norm(e) for e in clo)
+                if "fill_value['intermediate']" in txt or ".identity" in txt or "np.inf" in txt or "dtypes.INF" in txt or "dtypes.NINF" in txt:
+                    ident = norm(sd)
+            if ident is None:
+                continue
+            pm = pm or parents_map(f.node)
+            # used as a mask?  np.where(cond, ...) / X[cond] = ... / cond bound to a name used so
+            used_as_mask = False
+            for a in ancestors(n, pm):
+                if isinstance(a, ast.Call) and norm(a.func) in ("np.where", "numpy.where") and a.args and any(x is n for x in ast.walk(a.args[0])):
+                    used_as_mask = True
+                if isinstance(a, ast.Subscript) and any(x is n for x in ast.walk(a.slice)):
+                    used_as_mask = True
+                if isinstance(a, (ast.If, ast.IfExp, ast.Assert, ast.While)):
+                    break
+            if not used_as_mask:
+                continue
+            n_inst += 1
+            counted = any(w in norm(a) for a in ancestors(n, pm) if isinstance(a, (ast.BinOp, ast.BoolOp, ast.Call)) for w in ("count", "nanlen", "min_count"))
+            res.inst(f"{q}: mask '{norm(n)[:50]}' compares a value with the padding identity ({ident[:30]}); conjoined with a count: {counted}", f"{q}|{norm(n)[:40]}")
+            if not counted:
+                res.report(f"{q}|identity-as-absence|{norm(n)[:40]}", f.where(n), q,
+                           f"'{norm(n)[:60]}' is used as a mask for 'this group occurred in no block', but the padding identity ({ident[:40]}) is also the "
+                           "legal result of a group whose members are all -inf (max) / +inf (min): such a group is overwritten with the fill value; "
+                           "absence is what the counts are for")
     return res
 
 
@@ -1321,4 +1361,36 @@ def rule_combinebypass(ctx) -> RuleResult:
                        f"concatenated intermediates are handed on without the second reduction under a condition computed from label values "
                        f"({', '.join(value_dep) or 'no shape test'}): the placeholder label of an all-missing block is not removed and recurring labels are "
                        "not merged by construction, so lazily discovered groups can contain a spurious NaN label with a made-up value")
+    return res
+
+
+# ---------------------------------------------------------------------------------------------
+# R-FINITE (C04, C20, C01): finiteness never decides which values count as data.
+# +inf and -inf are legal data (and the true extreme of a group); only NaN / NaT mark "missing" or "absent".  A validity mask built with
+# np.isfinite / np.isinf makes a combine step or a kernel skip infinities like missing values: the result of merging per-block results then
+# differs from the all-at-once reduction.  (Zero instances on today's tree; the self-test keeps a positive example.)
+def rule_finite(ctx) -> RuleResult:
+    res = RuleResult("R-FINITE", "np.isfinite / np.isinf are never used as a validity mask on data", min_instances=1)
+    pm_cache = {}
+    n = 0
+    for q, f in sorted(ctx.prog.funcs.items()):
+        if f.is_overload or isinstance(f.node, ast.Lambda) or f.unit.name in ("visualize", "xarray"):
+            continue
+        for c in calls_in(f.node):
+            if norm(c.func) not in ("np.isfinite", "np.isinf", "numpy.isfinite", "numpy.isinf", "np.isposinf", "np.isneginf") or not c.args:
+                continue
+            n += 1
+            pm = pm_cache.setdefault(q, parents_map(f.node))
+            # a pure validation (`if not np.isfinite(x).all(): raise`) is not a mask
+            validation = False
+            for a in ancestors(c, pm):
+                if isinstance(a, ast.If) and any(x is c for x in ast.walk(a.test)) and any(isinstance(r, ast.Raise) for b in a.body for r in ast.walk(b)):
+                    validation = True
+            on_data = bool(names_in(c.args[0]) & set(f.params))
+            res.inst(f"{q}: {norm(c)[:50]} (on a parameter: {on_data}; validation only: {validation})", f"{q}|{c.lineno}")
+            if on_data and not validation:
+                res.report(f"{q}|finite-as-validity|{norm(c)[:30]}", f.where(c), q,
+                           f"'{norm(c)[:60]}' separates data from non-data by finiteness: +inf / -inf are legal values (the true extreme, first or last member of "
+                           "a group) and would be skipped like the NaN of an absent group; use isnull / np.isnan")
+    res.inst(f"{n} finiteness tests found in kernel and combine code", "count")
     return res
